@@ -360,6 +360,62 @@ func TestC11(t *testing.T) {
 			r.Sample("script", 2, sc)
 		}
 	}
+	// (D) the context ends inside an event callback (cancel() or a deadline that passes there), with every
+	// retry limit incl. "no retries"; and read errors that wrap a context error (a client timeout, a
+	// transport's own deadline) while the request's context is alive: lost connections like any other.
+	nD := r.N(3000, 80000)
+	for i := 0; i < nD; i++ {
+		if !r.Mine("D", i) {
+			continue
+		}
+		rng := r.Rand("D", i)
+		sc := &cScript{Backoff: cBackoff{InitialInterval: int64(time.Millisecond), Multiplier: 1.5, Jitter: []float64{-1, 0.5}[rng.IntN(2)], MaxRetries: []int{-1, -1, 0, 1, 2, 4}[rng.IntN(6)]}, Body: []string{"nil", "bytes"}[rng.IntN(2)]}
+		na := 1 + rng.IntN(5)
+		cbAt := rng.IntN(na + 1) // na: no callback ends the context in this script
+		for k := 0; k < na; k++ {
+			a := cGenAttempt(rng, true, false, false)
+			if k == cbAt || (a.Kind != "terr" && rng.IntN(3) == 0) {
+				a = cAttempt{Kind: "stream", Stream: cGenStream(rng, true), End: []string{"eof", "rerr", "rerr_dl", "rerr_cancel"}[rng.IntN(4)], CancelAtOff: -1}
+				switch rng.IntN(3) {
+				case 0:
+					a.ByteReads = true
+				case 1:
+					if len(a.Stream) > 1 {
+						a.Cuts = mon.NormCuts([]int{1 + rng.IntN(len(a.Stream)-1), 1 + rng.IntN(len(a.Stream)-1)}, len(a.Stream))
+					}
+				}
+			}
+			if a.Kind == "stream" && a.End != "rerr_dl" && a.End != "rerr_cancel" && rng.IntN(3) == 0 {
+				a.End = []string{"rerr_dl", "rerr_cancel"}[rng.IntN(2)]
+			}
+			if k == cbAt {
+				n := len(interpretAttempt(a, "").Events)
+				for kk := min(n, 1+rng.IntN(n+1)); kk >= 1; kk-- {
+					a.CancelInCallback = kk
+					if so := interpretAttempt(a, ""); so.OptionalFrom > 0 && !so.Ambiguous {
+						break
+					}
+					a.CancelInCallback = 0
+				}
+				if a.CancelInCallback > 0 {
+					r.Count("context_ended_in_callback", 1)
+				}
+			}
+			if a.End == "rerr_dl" || a.End == "rerr_cancel" {
+				r.Count("read_errors_wrapping_a_context_error", 1)
+			}
+			sc.Attempts = append(sc.Attempts, a)
+		}
+		if rng.IntN(3) == 0 {
+			sc.Deadline = true
+		} else if rng.IntN(4) == 0 {
+			sc.Cause = true
+		}
+		cRun(t, r, fw.Key("D", i), sc, "C11")
+		if i < 8 {
+			r.Sample("script_context_ended_in_callback", 2, sc)
+		}
+	}
 	// (C) sse.Read reports a read error as itself and ErrUnexpectedEOF only for a clean mid-line end.
 	idx = 0
 	for _, base := range c11Bases {
